@@ -569,6 +569,7 @@ package httpserver
 //@ func (*httpContext).saveConfig
 //@   requires [saved_site_host_is_normalised] cfg != nil && (existsT(hh, string, cfg.Addr.Host == normHost(hh)) || cfg.Addr.Host == Host)
 //@   requires [tls_filed_under_site_host] cfg.TLS != nil && cfg.TLS.Hostname == cfg.Addr.Host
+//@   requires h != nil && h.keysToSiteConfigs != nil
 //@   modifies httpContext.siteConfigs, E:*github.com/tmpim/casket/caskethttp/httpserver.SiteConfig, MV:map[string]*github.com/tmpim/casket/caskethttp/httpserver.SiteConfig, MD:map[string]*github.com/tmpim/casket/caskethttp/httpserver.SiteConfig
 //@ extern github.com/tmpim/casket/caskettls.NewConfig
 //@   ensures result1 == nil ==> result0 != nil
@@ -769,3 +770,22 @@ package httpserver
 //@   requires w != nil && r != nil
 //@   modifies ghost:hw, ghost:lastStatus, ghost:bodyWrites
 //@   ensures [one_404_or_421] hw == old(hw) + 1 && bodyWrites == old(bodyWrites) + 1 && ((r.ProtoMajor < 2 && lastStatus == 404) || (r.ProtoMajor >= 2 && lastStatus == 421))
+
+//@ unit context_helpers frames=on props=C06,C15,C01,C20 verify_pure=on nilchecks=on filter=`httpserver\.Address\)\.(String|Key)$|httpserver\.httpContext\)\.saveConfig$|httpserver\.newLimitWriter$|httpserver\.newContext$`
+//@ // helpers that inspect_server_blocks and new_replacer assume through thin contracts, proved: the two address renderings
+//@ // write nothing, saveConfig writes the context's list and key table only, the constructors return live objects
+//@ use @verif/specs/stdlib.spec:stdlib
+//@ extern net.JoinHostPort
+//@   pure
+//@ func (Address).String
+//@   pure
+//@ func (Address).Key
+//@   pure
+//@ func (*httpContext).saveConfig
+//@   requires h != nil && h.keysToSiteConfigs != nil
+//@   modifies httpContext.siteConfigs, E:*github.com/tmpim/casket/caskethttp/httpserver.SiteConfig, MV:map[string]*github.com/tmpim/casket/caskethttp/httpserver.SiteConfig, MD:map[string]*github.com/tmpim/casket/caskethttp/httpserver.SiteConfig
+//@   ensures [site_listed_last_and_filed_under_its_key] len(h.siteConfigs) == old(len(h.siteConfigs)) + 1 && h.siteConfigs[len(h.siteConfigs)-1] == cfg && has(h.keysToSiteConfigs, key) && h.keysToSiteConfigs[key] == cfg
+//@ func newLimitWriter
+//@   ensures result != nil && result.remain == max
+//@ func newContext
+//@   ensures [context_starts_with_an_empty_key_table] result != nil
